@@ -112,6 +112,9 @@ func (e *Exec) unop(fr *frame, instr *ssa.UnOp, x Value) Value {
 	case token.ARROW:
 		return e.chanRecv(x.(*Chan), instr.CommaOk, instr.X.Type().Underlying().(*types.Chan).Elem())
 	case token.MUL:
+		if sp, ok := x.(*symPtr); ok {
+			return e.symLoad(sp)
+		}
 		return e.load(x.(*Value))
 	case token.SUB:
 		switch x := x.(type) {
